@@ -256,12 +256,13 @@ func drawCase(t *rapid.T, o gen.DataOpts, nexpr int) *Case {
 
 // prelude: one dataset per boundary bucket, deterministic.
 func prelude(t *testing.T, sizes []int) {
-	for _, n := range sizes {
+	for wi, n := range sizes {
 		spec := gen.DataSpec{Recipe: &gen.Recipe{N: n, Cols: []gen.ColSpec{
 			{Name: "a", Kind: gen.KMod, K: 3, Prefix: "v"},
 			{Name: "b", Kind: gen.KDiv, K: 1000, Pres: gen.PModNot, P: 3},
 			{Name: "c", Kind: gen.KSparse, K: 1001, R: 5, Pres: gen.PNotLast, P: 2},
 			{Name: "d", Kind: gen.KMod, K: 1500, Prefix: "\xff"},
+			{Name: "len", Kind: gen.KLen, K: gen.LenWindows[wi%len(gen.LenWindows)], R: 40},
 		}}}
 		a0, b0, c0 := model.Eq("a", "v0"), model.Eq("b", "0"), model.Eq("c", "hit")
 		c := &Case{Data: spec, Probes: true, Exprs: []model.Expr{
@@ -322,7 +323,7 @@ func TestMakePinned(t *testing.T) {
 		t.Skip("VERIF_MAKE_PINNED not set")
 	}
 	c := &Case{
-		Data: gen.DataSpec{Explicit: []model.Row{{"a\x00b": "c"}, {"a": "b\x00c"}, {"a": "z"}}},
+		Data:  gen.DataSpec{Explicit: []model.Row{{"a\x00b": "c"}, {"a": "b\x00c"}, {"a": "z"}}},
 		Exprs: []model.Expr{model.Eq("a", "b\x00c"), model.Eq("a\x00b", "c"), model.Not(model.Eq("a", "b\x00c"))},
 	}
 	err := oracle(c)
